@@ -181,6 +181,8 @@ def gen_sched_script(rs: int, knobs: Optional[dict] = None) -> dict:
     sec_us = start_us % 60_000_000
     if (max_list or cpu_on) and sec_us > 59_400_000 - max_list:
         start_us -= sec_us - (59_400_000 - max_list)
-    return {"world": "sched", "run_seed": rs, "start": {"epoch_us": start_us, "local_off_min": r.choice([0, 0, 180, -420, 345])},
+    tz = r.choice(["UTC", "UTC", "Etc/GMT-3", "Etc/GMT+7", "Asia/Kathmandu", "Asia/Tokyo", "America/Phoenix"])
+    from .sched_world import TZ_OFFSETS
+    return {"world": "sched", "run_seed": rs, "start": {"epoch_us": start_us, "local_off_min": TZ_OFFSETS[tz], "tz": tz},
             "horizon_us": horizon_us, "entry": r.choice(["loop", "loop", "task", "cli", "cli_skip"]), "sources": sources, "ops": ops, "kicks": kicks,
             "cpu": {"on": cpu_on}, "faults": faults}
